@@ -2,6 +2,7 @@ import ZarrsModel.Model.FillMeta
 import ZarrsModel.Lemmas.Json
 import ZarrsModel.Lemmas.Float
 import ZarrsModel.Lemmas.FillMeta
+import ZarrsModel.Lemmas.ExactCodec
 /-
 C14 — fill values survive the metadata round trip bit-exactly.
 
@@ -46,7 +47,13 @@ escape, nested arrays and objects in order) -/
 theorem json_roundtrip (j : J) (h : j.wf) : parse (print j) = some j :=
   parse_print j h
 example : (J.obj [(ascii "a", .arr [.num "-12".toList, .str [34, 10, 0xC3, 0xA9], .null]), (ascii "b", .bool true)]).wf := by
-  sorry
+  have hnum : tokOk "-12".toList :=
+    NumTok.tokOk_int true ['1', '2'] ⟨by simp, by decide, by decide⟩
+  have hs1 : strOk (ascii "a") := ⟨by decide, by decide⟩
+  have hs2 : strOk (ascii "b") := ⟨by decide, by decide⟩
+  have hs3 : strOk [34, 10, 0xC3, 0xA9] := ⟨by decide, by decide⟩
+  simp only [J.wf, wfKVs, wfList, and_true]
+  exact ⟨⟨hs1, ⟨hnum, hs3⟩, hs2⟩, by unfold keysDistinct; decide⟩
 
 /-! ### floats -/
 
@@ -65,8 +72,8 @@ theorem narrow_widen (how : Narrow) (f : Fmt) (hf : f = f16 ∨ f = bf16 ∨ f =
 
 /-- the assumption on the number codec is satisfiable: the exact decimal expansion read by the correctly rounded
 reader -/
-theorem exactCodec_good : NumCodec.Good exactCodec := by
-  sorry
+theorem exactCodec_good : NumCodec.Good exactCodec :=
+  ⟨fun b hb hfin => exactFmt'_read b hb hfin, fun b hb hfin => exactFmt'_tokOk b hb hfin⟩
 
 /-- **every non-finite pattern round-trips through its string form, independent of the number codec**: both
 infinities, the canonical NaN, and every other NaN payload and sign (as a hex string) -/
@@ -78,8 +85,8 @@ theorem float_nonfinite_roundtrip (nc : NumCodec) (how : Narrow) (f : Fmt)
 /-- **every pattern of a float format round-trips through metadata** (finite ones through the number codec) -/
 theorem float_roundtrip (nc : NumCodec) (hnc : NumCodec.Good nc) (how : Narrow) (f : Fmt)
     (hf : f = f16 ∨ f = bf16 ∨ f = f32 ∨ f = f64) (b : Nat) (hb : b < 2 ^ f.bits) :
-    metaToFloat nc how f (floatToMeta nc f b) = some b := by
-  sorry
+    metaToFloat nc how f (floatToMeta nc f b) = some b :=
+  float_roundtrip' nc ⟨hnc.roundTrip, hnc.token⟩ how f hf b hb
 
 /-! ### the property -/
 
@@ -88,16 +95,19 @@ metadata, serialising, parsing and converting back yields the identical bytes -/
 theorem fill_roundtrip (nc : NumCodec) (hnc : NumCodec.Good nc) (how : Narrow) (dt : DT) (hdt : DT.ok dt)
     (bs : List Nat) (hbytes : ∀ b ∈ bs, b < 256) (j : J) (hj : toMeta nc dt bs = some j) :
     roundTrip nc how dt bs = some bs := by
-  sorry
+  obtain ⟨hwf, hinv⟩ := toMeta_inverse nc ⟨hnc.roundTrip, hnc.token⟩ how dt (by cases dt <;> exact hdt)
+    bs hbytes j hj
+  simp only [roundTrip, hj, Option.bind_some, json_roundtrip j hwf, hinv]
 example : toMeta exactCodec (.float f32) [0x01, 0x00, 0xC0, 0xFF] = some (.str (ascii "0xffc00001")) := by
-  sorry
+  rfl
 
 /-- the same without any assumption on the number codec, for the data types that never use it -/
 theorem fill_roundtrip_nonfloat (nc : NumCodec) (how : Narrow) (dt : DT) (hdt : DT.ok dt)
     (hnf : ∀ f, dt ≠ .float f ∧ dt ≠ .complex f)
     (bs : List Nat) (hbytes : ∀ b ∈ bs, b < 256) (j : J) (hj : toMeta nc dt bs = some j) :
     roundTrip nc how dt bs = some bs := by
-  sorry
+  obtain ⟨hwf, hinv⟩ := toMeta_inverse_nonfloat nc how dt (by cases dt <;> exact hdt) hnf bs hbytes j hj
+  simp only [roundTrip, hj, Option.bind_some, json_roundtrip j hwf, hinv]
 
 /-- **which fill values have a metadata form**: every byte string of the data type's size (any length for
 `bytes`), except a `bool` byte other than 0/1 and a `string` that is not UTF-8 -/
@@ -112,7 +122,16 @@ theorem toMeta_defined (nc : NumCodec) (dt : DT) (hdt : DT.ok dt) (bs : List Nat
       | .raw n => bs.length = n
       | .bytes => True
       | .string => validUtf8 bs = true := by
-  sorry
+  cases dt with
+  | bool =>
+    constructor
+    · intro h
+      cases hj : toMeta nc .bool bs with
+      | none => simp [hj] at h
+      | some j => rcases toMeta_bool nc bs j hj with ⟨h1, -⟩ | ⟨h1, -⟩ <;> simp [h1]
+    · rintro (rfl | rfl) <;> rfl
+  | complex f => simp [toMeta]
+  | _ => simp [toMeta]
 
 /-- **C14, rejection by kind**: metadata that is accepted has the JSON kind of the data type — a boolean for
 `bool`, a number for integers, a number or string for floats, a two-element array for complex numbers, an array
@@ -128,25 +147,46 @@ theorem fromMeta_kind (nc : NumCodec) (how : Narrow) (dt : DT) (j : J) (bs : Lis
     | .raw _ => ∃ xs, j = .arr xs ∧ ∀ x ∈ xs, ∃ t, x = .num t
     | .bytes => ∃ xs, j = .arr xs ∧ ∀ x ∈ xs, ∃ t, x = .num t
     | .string => ∃ s, j = .str s := by
-  sorry
+  cases dt with
+  | bool => cases j <;> simp [fromMeta] at h ⊢
+  | int n => cases j <;> simp [fromMeta] at h ⊢
+  | uint n => cases j <;> simp [fromMeta] at h ⊢
+  | float f => cases j <;> simp [fromMeta, metaToFloat] at h ⊢
+  | complex f => exact fromMeta_complex_kind nc how f j bs h
+  | raw n =>
+    simp only [fromMeta] at h
+    cases hm : metaToBytes j with
+    | none => simp [hm] at h
+    | some bs' =>
+      obtain ⟨xs, h1, h2, -⟩ := metaToBytes_some j bs' hm
+      exact ⟨xs, h1, h2⟩
+  | bytes =>
+    obtain ⟨xs, h1, h2, -⟩ := metaToBytes_some j bs h
+    exact ⟨xs, h1, h2⟩
+  | string => cases j <;> simp [fromMeta] at h ⊢
 
 /-- **C14, rejection by range**: an integer token is accepted by an `n`-byte signed type exactly when its value is
 in `[-2^(8n-1), 2^(8n-1))`, and then the bytes are its two's complement form -/
 theorem int_accept_iff (nc : NumCodec) (how : Narrow) (n : Nat) (hn : n = 1 ∨ n = 2 ∨ n = 4 ∨ n = 8) (i : Int) :
     (fromMeta nc how (.int n) (.num (intTok i))).isSome = true ↔ (-(2 ^ (8 * n - 1) : Int) ≤ i ∧ i < 2 ^ (8 * n - 1)) := by
-  sorry
+  simp only [fromMeta, NumTok.asI64_intTok, bind_if_isSome]
+  rcases hn with rfl | rfl | rfl | rfl <;>
+    simp only [Nat.reduceMul, Nat.reduceSub, Int.reducePow, Int.reduceNeg] <;> omega
 theorem uint_accept_iff (nc : NumCodec) (how : Narrow) (n : Nat) (hn : n = 1 ∨ n = 2 ∨ n = 4 ∨ n = 8) (v : Nat) :
     (fromMeta nc how (.uint n) (.num (natTok v))).isSome = true ↔ v < 2 ^ (8 * n) := by
-  sorry
+  simp only [fromMeta, NumTok.asU64_natTok, bind_if_isSome]
+  rcases hn with rfl | rfl | rfl | rfl <;>
+    simp only [Nat.reducePow, Nat.reduceMul] <;> omega
 /-- a negative number is never an unsigned fill value, and a number written with a fraction or exponent is never
 an integer fill value -/
 theorem int_rejects_float_token (nc : NumCodec) (how : Narrow) (n : Nat) (t : List Char)
     (ht : t.any (fun c => c == '.' || c == 'e' || c == 'E') = true) :
     fromMeta nc how (.int n) (.num t) = none ∧ fromMeta nc how (.uint n) (.num t) = none := by
-  sorry
+  have h : tokIsInt t = false := by simp [tokIsInt, ht]
+  simp only [fromMeta, NumTok.asI64_nonint t h, NumTok.asU64_nonint t h, Option.bind_none, and_self]
 theorem uint_rejects_negative (nc : NumCodec) (how : Narrow) (n : Nat) (t : List Char) :
     fromMeta nc how (.uint n) (.num ('-' :: t)) = none := by
-  sorry
+  simp only [fromMeta, NumTok.asU64_neg, Option.bind_none]
 
 /-- **accepted metadata has the data type's size**, and byte arrays hold bytes -/
 theorem fromMeta_size (nc : NumCodec) (how : Narrow) (dt : DT) (hdt : DT.ok dt) (j : J) (bs : List Nat)
@@ -160,13 +200,14 @@ theorem fromMeta_size (nc : NumCodec) (how : Narrow) (dt : DT) (hdt : DT.ok dt) 
     | .raw n => bs.length = n ∧ ∀ b ∈ bs, b < 256
     | .bytes => ∀ b ∈ bs, b < 256
     | .string => True := by
-  sorry
+  have := fromMeta_size' nc how dt j bs h
+  cases dt <;> exact this
 
 /-- **hex strings**: a float accepts a string other than the three names only if it is `0x` followed by exactly
 `2 * size` hexadecimal digits -/
 theorem float_string_accept (nc : NumCodec) (how : Narrow) (f : Fmt) (s : Str) (b : Nat)
     (hs : s ≠ sInfinity ∧ s ≠ sNegInfinity ∧ s ≠ sNaN) (h : metaToFloat nc how f (.str s) = some b) :
-    ∃ ds, s = 48 :: 120 :: ds ∧ ds.length = 2 * (f.bits / 8) ∧ ∀ d ∈ ds, (hexVal d).isSome = true := by
-  sorry
+    ∃ ds, s = 48 :: 120 :: ds ∧ ds.length = 2 * (f.bits / 8) ∧ ∀ d ∈ ds, (hexVal d).isSome = true :=
+  float_string_accept' nc how f s b hs h
 
 end Zarrs.C14
